@@ -158,11 +158,14 @@ def extra(ctx):
                           "signature": "c18:request-counting"})
     # (4) the real worker_serve of both workers: the jitter is drawn from [0, max_requests_jitter], and serve() begins
     #     its graceful exit right after request number max_requests + jitter + 1
-    for backend, mx, jit, pick in recycle_plan(ctx):
-        res = recycle_run(backend, mx, jit, pick)
+    for k, (backend, mx, jit, pick) in enumerate(recycle_plan(ctx)):
+        no_trigger = backend == "trio" and k % 2 == 1     # the worker's own recycling needs no outside trigger
+        if no_trigger:
+            mx = max(mx, 1)
+        res = recycle_run(backend, mx, jit, pick, no_trigger)
         n += 1
         dist["worker_recycle"] = dist.get("worker_recycle", 0) + 1
-        case = {"kind": "worker-recycle", "backend": backend, "max_requests": mx, "jitter": jit, "pick": pick, **res}
+        case = {"kind": "worker-recycle", "backend": backend, "max_requests": mx, "jitter": jit, "pick": pick, "shutdown_trigger": not no_trigger, **res}
         if res["draws"] != [(0, jit)]:
             fails.append({"case": case, "what": f"jitter drawn from {res['draws']}, expected one draw from (0, {jit})", "signature": "c18:jitter-range"})
         elif res["served"] != mx + res["j"] + 1 or not res["returned"]:
@@ -180,7 +183,7 @@ def recycle_plan(ctx):
     return plan
 
 
-def recycle_run(backend, mx, jit, pick):
+def recycle_run(backend, mx, jit, pick, no_trigger=False):
     """Real serve() in a thread on a loopback port; randint of the worker's run module is replaced by a recorder that
     returns the low or the high end of the range it is asked for."""
     import importlib
@@ -211,7 +214,7 @@ def recycle_run(backend, mx, jit, pick):
     mod.randint = fake_randint
     served = 0
     try:
-        srv = L.Served(backend, app, max_requests=mx, max_requests_jitter=jit, graceful_timeout=1.0)
+        srv = L.Served(backend, app, max_requests=mx, max_requests_jitter=jit, graceful_timeout=1.0, _no_trigger=no_trigger)
         first = srv.wait_listening()
         if first is not None:
             first.close()
